@@ -258,9 +258,11 @@ func hashKindCases(g *Gen, o *Out) {
 // corrupted or cut, so a reader that remembers what it has already verified is caught.
 func repeatCases(g *Gen, o *Out) {
 	a, b := g.BlockWith(g.bytes(20+g.pick(40))), g.Block()
-	bs := []Blk{a, b, a}
-	o.HashBlocks(bs)
+	o.HashBlocks([]Blk{a, b})
 	r := []cid.Cid{a.C}
+	// the later copy at a distance, and right behind the earlier one (a reader that compares a section with
+	// the one it has just verified)
+	for _, bs := range [][]Blk{{a, b, a}, {b, a, a}} {
 	for _, v1 := range []bool{true, false} {
 		arch := writeAll(r, bs, v1)
 		end := len(arch)
@@ -286,6 +288,7 @@ func repeatCases(g *Gen, o *Out) {
 			}
 			o.Count("repeat-later-copy")
 		}
+	}
 	}
 }
 
